@@ -34,7 +34,9 @@ NOT_DECIDED = ["correctness of calc_components_of_loop and of the event-set "
                "rewriting", "in-place mutation of loop.break_events while "
                "iterating (recorded in DESIGN section 9, not armed)"]
 ASSUMPTIONS = ["networkx.strongly_connected_components returns every node in "
-               "exactly one component"]
+               "exactly one component",
+               "networkx.strongly_connected_components yields the components "
+               "in reverse topological order of the condensation (Tarjan)"]
 
 
 def check(rep: Report, ctx: Ctx) -> None:
@@ -61,8 +63,65 @@ def check(rep: Report, ctx: Ctx) -> None:
     r721(rep, ctx)
 
 
+def scc_order(rep: Report, ctx: Ctx, rule: str, det: Optional[FuncInfo] = None,
+              scc_loop: Optional[ast.For] = None) -> None:
+    if det is None:
+        det = ctx.func("detect_loops")
+    defs = ctx.defs(det)
+    if scc_loop is None:
+        for l in det.node.body:
+            if isinstance(l, ast.For) and any(
+                    isinstance(c, ast.Call) and call_name(c) ==
+                    "strongly_connected_components"
+                    for c in ast.walk(defs.resolve_deep(l.iter))):
+                scc_loop = l
+        if scc_loop is None:
+            raise AnalysisError(f"{rule}: detect_loops has no loop over the "
+                                "strongly connected components")
+    # order: the component list is computed once, on the graph before any
+    # loop is collapsed, and collapsing a loop prunes what lies behind its
+    # break paths from the parent graph - a loop on the break / exit path of
+    # another loop must already be a loop node by then.  networkx yields the
+    # components in reverse topological order of the condensation (sinks
+    # first), which is exactly that order (seed C01-u: `sorted(.., key=len)`)
+    src = scc_loop.iter
+    chain = []
+    for _ in range(8):
+        if isinstance(src, ast.Name):
+            d = defs.resolve(src) if hasattr(defs, "resolve") else None
+            if d is None or d is src:
+                break
+            src = d
+            continue
+        if isinstance(src, ast.Call) and call_name(src) in (
+                "list", "tuple", "iter", "tqdm") and src.args:
+            chain.append(call_name(src))
+            src = src.args[0]
+            continue
+        break
+    direct = isinstance(src, ast.Call) and call_name(src) == \
+        "strongly_connected_components"
+    reorders = isinstance(src, ast.Call) and call_name(src) in (
+        "sorted", "reversed", "set", "frozenset", "sample", "shuffle") or (
+        isinstance(src, ast.Subscript) and isinstance(src.slice, ast.Slice))
+    if not direct and not reorders:
+        raise AnalysisError(
+            f"{rule}: cannot tell in which order detect_loops visits the "
+            f"components: iterates '{unparse(scc_loop.iter)[:60]}' = "
+            f"'{unparse(src)[:80]}'")
+    rep.ob(rule, "the components are visited in the order networkx yields "
+           "them (sinks of the condensation first): a loop behind another "
+           "loop's break path is collapsed before the outer one prunes it",
+           direct, fi=det, node=scc_loop,
+           detail=f"iterates {'('.join(chain + [''])}"
+                  f"{unparse(src)[:70]}" + ("" if direct else
+                  " -- re-ordered; the component list was computed on the "
+                  "un-collapsed graph, a later component may no longer "
+                  "exist (NodeNotFound) or be lost"))
+
+
 def r71(rep: Report, ctx: Ctx, det: FuncInfo) -> None:
-    rep.rule("R7.1", "every cyclic SCC is replaced", 2)
+    rep.rule("R7.1", "every cyclic SCC is replaced, inner / downstream loops first", 3)
     defs = ctx.defs(det)
     loops = [l for l in det.node.body if isinstance(l, ast.For)]
     scc_loop = None
@@ -80,6 +139,7 @@ def r71(rep: Report, ctx: Ctx, det: FuncInfo) -> None:
     comp = scc_loop.target.id if isinstance(scc_loop.target, ast.Name) else "?"
     rep.ob("R7.1", "detect_loops iterates every SCC of the graph", True,
            fi=det, node=scc_loop, detail=f"for {comp} in SCCs(graph)")
+    scc_order(rep, ctx, "R7.1", det, scc_loop)
     skips = [n for n in ast.walk(scc_loop)
              if isinstance(n, (ast.Continue, ast.Break, ast.Return))]
     for sk in skips:
